@@ -225,6 +225,7 @@ class MapManager(AoE2Object):
 
         if x1 == x2 and y1 == y2:
             edge_tiles = source_tiles = [self.get_tile(x1, y1)]
+            source_tiles[0].elevation = elevation
             xys = [source_tiles[0].xy]
         else:
             source_tiles = self.get_square_2d(x1, y1, x2, y2)
